@@ -398,6 +398,26 @@ ROUND5 = {
 }
 for _k, _v in ROUND5.items():
     CHECKS[_k]['text'] += '  ' + _v
+ROUND6 = {
+    'C01': 'Three outputs (at most one measurement each) also in the quick tier; representative times carry digits beyond the sixth decimal.',
+    'C02': 'Composed models nested inside composed models (with and without pooled / heterogeneous dimensions inside the nested model).',
+    'C04': 'Bounded: one observation 45 / 300 standard deviations out (finite pointwise values); at model outputs of either sign, wherever the plain evaluation is finite, the sensitivities are its derivatives (central differences of compute_log_likelihood itself).',
+    'C05': 'Bounded: reduce=True takes priority over flattened=False.',
+    'C06': 'Bounded native samplers: truncated Gaussian down to mu / sigma = -9 (finite, inside the support, continuous, moments of the scored density), heterogeneous samples are rows of the parameter matrix, two samples are the same individual with probability 1 / n_ids.',
+    'C07': 'Bounded: nearly equal covariates (tiny values with large effects, values on a large common offset).',
+    'C08': 'Bounded: PopulationPredictiveModel.fix_parameters, also when the population model handed in is already reduced.',
+    'C10': 'The depot is identified as the state the call added (a model whose compartment is itself called dose).',
+    'C11': 'Predicate solver.holds: the solver that ran a simulate call held the values of that call, parameter by parameter.',
+    'C12': 'Bounded: data in a unit that makes the numbers tiny; large studies (value of the whole = sum over the two halves of the individuals).',
+    'C14': 'A measurement recorded on the same row as a dose; measurement times with non-terminating fractions.',
+    'C15': 'Four contributing models in an averaged predictive model (distinct IDs).',
+    'C16': 'No sample of one integer seed re-appears under the neighbouring seed.',
+    'C18': 'Non-centred individual-level initial entries are replayed natively (they are standard-normal entries, not individual parameters).',
+    'C19': 'Ownership also of the caller\'s list of error models (unchanged by the constructor, not shared).',
+    'C20': 'Rows that carry a dose and a measurement belong to both traces.',
+}
+for _k, _v in ROUND6.items():
+    CHECKS[_k]['text'] += '  ' + _v
 NOT_APPLICABLE = {}
 
 # property id -> contract module (a module may exist before the property is claimed in CHECKS)
